@@ -18,7 +18,7 @@ class World:
         s.ex.gobj['@__libc_single_threaded'] = lst.base
         s.lst = lst
         s.ex.install_globals(s.st)
-        s.vars = {}
+        s.vars = {}; s._layouts = {}
         S = mod.types[SUPPORT_T]; s.sup_offs, s.sup_size, _ = S.layout(mod)
         G = mod.types[GRID_T]; s.grid_size = G.size(mod)
 
@@ -67,19 +67,64 @@ class World:
         if invariant: s.assume(valid_window(start, end, grid['n']))
         return dict(obj=sup, start=start, end=end, grid=grid, name=name)
 
+    SPLINE_PROBE = {1: '@w_eval1', 2: '@w_eval'}
+
+    def spline_layout(s, order):
+        """Layout of Spline<double,order> from the module's own struct type: offset of the Support, of the coefficient vector,
+        total size, and the byte ranges of members this harness does not know (e.g. a cache added by a change). The initial
+        bytes of unknown members are those of a freshly constructed object (obtained by running the real constructor
+        concretely in the executor)."""
+        if order in s._layouts: return s._layouts[order]
+        f = s.mod.funcs.get(s.SPLINE_PROBE.get(order, ''))
+        std = dict(size=s.sup_size + 24, sup=0, vec=s.sup_size, extra=[], template=None)
+        if f is None:
+            s._layouts[order] = std; return std
+        ty = f['params'][0][1]
+        while isinstance(ty, PtrTy): ty = ty.to
+        st_ty = s.ex.deref(ty)
+        offs, size, _ = st_ty.layout(s.mod)
+        names = [repr(x) for x in st_ty.fields]
+        try:
+            isup = names.index(SUPPORT_T); ivec = [i for i, n in enumerate(names) if 'std::vector' in n][0]
+        except (ValueError, IndexError):
+            raise EngineError('Spline layout not understood: fields %s' % names)
+        known = [(offs[isup], s.sup_size), (offs[ivec], 24)]
+        extra = []; pos = 0
+        for a, l in sorted(known):
+            if a > pos: extra.append((pos, a))
+            pos = a + l
+        if pos < size: extra.append((pos, size))
+        lay = dict(size=size, sup=offs[isup], vec=offs[ivec], extra=extra, template=None)
+        if extra:
+            # run the real constructor of an interval-free spline on a concrete 2-point grid and keep the bytes of the unknown members
+            W2 = World(s.mod, 2); g2 = W2.mk_grid('t', n=2); go = W2.mk_grid_obj('tobj', g2); mem = W2.out('mem', size)
+            outs = W2.ex.run('@w_mk_empty%d' % order, [bv(mem.base), bv(go.base)], W2.st)
+            if len(outs) == 1 and outs[0].kind == 'ret':
+                o = outs[0].st.objs[mem.id]; tmpl = {}
+                for a, b in extra:
+                    for k in range(a, b):
+                        v = z3.simplify(z3.Select(o.arr, bv(k)))
+                        if z3.is_bv_value(v): tmpl[k] = v.as_long()
+                lay['template'] = tmpl
+        s._layouts[order] = lay
+        return lay
+
     def mk_spline(s, name, grid, order, start=None, end=None, kind='input'):
-        """A Spline<double,order> object: {Support (32 bytes), std::vector<std::array<double,order+1>> (24 bytes)} with one
-        coefficient array per interval of the (symbolic) window; coefficient values are unconstrained bytes."""
+        """A Spline<double,order> object with one coefficient array per interval of the (symbolic) window; coefficient values
+        are unconstrained bytes; members unknown to the harness start with the bytes of a freshly constructed object."""
         ex, st = s.ex, s.st
+        lay = s.spline_layout(order)
         csz = 8 * (order + 1)
         start = start if start is not None else s.var(name + '_start'); end = end if end is not None else s.var(name + '_end')
-        coef = st.alloc(csz * max(1, s.nmax - 1), name + '_coefficients', kind); sp = st.alloc(s.sup_size + 24, name, kind)
+        coef = st.alloc(csz * max(1, s.nmax - 1), name + '_coefficients', kind); sp = st.alloc(lay['size'], name, kind)
         nint = z3.If(z3.UGE(end - start, 2), end - start - 1, bv(0)); coef.lsize = csz * nint
-        ex.poke(st, sp, s.sup_offs[0], bv(grid['vec'].base)); ex.poke(st, sp, s.sup_offs[0] + 8, bv(grid['ctrl'].base))
-        ex.poke(st, sp, s.sup_offs[1], start); ex.poke(st, sp, s.sup_offs[2], end)
-        ex.poke(st, sp, s.sup_size, bv(coef.base)); ex.poke(st, sp, s.sup_size + 8, bv(coef.base) + csz * nint); ex.poke(st, sp, s.sup_size + 16, bv(coef.base) + csz * nint)
+        so, vo = lay['sup'], lay['vec']
+        ex.poke(st, sp, so + s.sup_offs[0], bv(grid['vec'].base)); ex.poke(st, sp, so + s.sup_offs[0] + 8, bv(grid['ctrl'].base))
+        ex.poke(st, sp, so + s.sup_offs[1], start); ex.poke(st, sp, so + s.sup_offs[2], end)
+        ex.poke(st, sp, vo, bv(coef.base)); ex.poke(st, sp, vo + 8, bv(coef.base) + csz * nint); ex.poke(st, sp, vo + 16, bv(coef.base) + csz * nint)
+        for k, b in (lay['template'] or {}).items(): sp.arr = z3.Store(sp.arr, bv(k), bv(b, 8))
         s.assume(valid_window(start, end, grid['n']))
-        return dict(obj=sp, coef=coef, start=start, end=end, grid=grid, order=order, name=name, nint=nint)
+        return dict(obj=sp, coef=coef, start=start, end=end, grid=grid, order=order, name=name, nint=nint, layout=lay)
 
     def out(s, name, nbytes=8):
         return s.st.alloc(nbytes, name, 'out')
